@@ -98,8 +98,8 @@ def shards(tier, seed):
             out.append(("L2", "TwoWayDHCross", (2,), vecs2[i:i + 2], 0, None, None, False))
         for i in range(0, len(vecs2), 4):
             out.append(("L2", "TwoWayCross", (1, 1), vecs2[i:i + 4], 1, None, None, False))
-    # ---- L3: array counts, <= k deviations, all protocols
-    kdev = 3 if T else 2
+    # ---- L3: array counts, <= 2 deviations, all protocols (up to ~110 cells per execution);
+    #          thorough adds <= 3 deviations on a one-cross configuration (<= ~36 cells)
     for proto in R.PROTOS:
         kk = R.NPARENT[proto]
         base = [tuple((i + j) % n for j in range(kk)) for i in range(2)]
@@ -108,7 +108,12 @@ def shards(tier, seed):
             # split the DFS by the first-level deviation index to spread the load
             nsplit = 8 if T else 4
             for part in range(nsplit):
-                out.append(("L3", proto, (3,), [0.5, q, 0.5], nself, [(base, nm, npg)], kdev, (part, nsplit)))
+                out.append(("L3", proto, (3,), [0.5, q, 0.5], nself, [(base, nm, npg)], 2, (part, nsplit)))
+        if T:
+            one = [tuple((2 - j) % n for j in range(kk))]
+            for nself in (0, 1):
+                for part in range(8):
+                    out.append(("L3", proto, (3,), [0.5, q, 0.5], nself, [(one, 1, 2)], 3, (part, 8)))
     return out
 
 
@@ -305,7 +310,7 @@ def _prov(mat, decode):
 def run_shard(spec, ctx):
     layer, proto, lay, xop, nself, cfgs, bound, flag = spec
     ctx.bounds.update({"n_taxa": 3, "n_markers": 3, "L1_deviation_bound": 1,
-                       "L3_deviation_bound": 3 if ctx.tier == "thorough" else 2,
+                       "L3_deviation_bound": "2 (array counts, 2 crosses)" + ("; 3 (one cross, nprogeny 2)" if ctx.tier == "thorough" else ""),
                        "nself_max": 2 if ctx.tier == "thorough" else 1, "ncross_max": 2})
     if layer == "L1":
         for ci, (xconfig, nm, npg) in enumerate(cfgs):
